@@ -92,6 +92,26 @@ class BVLower:
     def name(self, i):
         return '%s%d' % (self.prefix, i)
 
+    def all(self):
+        """everything emitted so far, in dependency order"""
+        return '\n'.join(self.lines)
+
+    def declare_uf(self, opname, argsorts, ressort):
+        """declares (once) the UF used for app nodes named opname; returns (smt name, declaration text or '')"""
+        fname = 'uf_' + opname.replace('.', '_')
+        sig = (tuple(argsorts), ressort)
+        if fname in self.ufs:
+            if self.ufs[fname] != sig:
+                raise ValueError('UF %s declared with two signatures' % fname)
+            return fname, ''
+        self.ufs[fname] = sig
+        if argsorts:
+            d = '(declare-fun %s (%s) %s)' % (fname, ' '.join(argsorts), ressort)
+        else:
+            d = '(declare-const %s %s)' % (fname, ressort)
+        self.lines.append(d)
+        return fname, d
+
     def emit(self, roots):
         """returns SMT-LIB text defining all nodes in the cone of roots not emitted before"""
         out = []
@@ -290,3 +310,30 @@ class Eval:
         if op == 'inteq':
             return int(V[0] == V[1])
         raise ValueError('Eval: unsupported op %s' % op)
+
+
+def varid(run, name):
+    for n in run.nodes:
+        if n['op'] == 'var' and n['n'] == name:
+            return n['id']
+    return None
+
+
+def ensure_vars(run, low, names, w=64):
+    """returns SMT names for input variables; variables the code never read are declared here"""
+    out, decl = [], []
+    for nm in names:
+        i = varid(run, nm)
+        if i is None:
+            sn = 'free_' + nm
+            if sn not in low.ufs:
+                low.ufs[sn] = 'var'
+                decl.append('(declare-const %s (_ BitVec %d))' % (sn, w))
+                low.lines.append(decl[-1])
+            out.append(sn)
+        else:
+            d = low.emit([i])
+            if d:
+                decl.append(d)
+            out.append(low.name(i))
+    return out, '\n'.join(decl)
